@@ -602,6 +602,7 @@ func (c *Conn) processECHClientHello(outer *clientHelloMsg) (*clientHelloMsg, *e
 			// attempt next trial decryption
 			continue
 		}
+		verifEmit(c, "ech_encoded_inner", encodedInner)
 
 		// NOTE: we do not enforce that the sent server_name matches the ECH
 		// configs PublicName, since this is not particularly important, and
@@ -614,6 +615,7 @@ func (c *Conn) processECHClientHello(outer *clientHelloMsg) (*clientHelloMsg, *e
 			c.sendAlert(alertIllegalParameter)
 			return nil, nil, errInvalidECHExt
 		}
+		verifEmit(c, "ech_inner", echInner.original)
 
 		c.echAccepted = true
 
